@@ -435,4 +435,74 @@ theorem used_mem (data : Bytes) (b : UInt8) (hb : b ∈ data) :
   simpa using hb
 
 
+/-! ### `sorted_palette` -/
+
+theorem idxOf?_none {α} [BEq α] [LawfulBEq α] (l : List α) (a : α) (h : l.idxOf? a = none) : a ∉ l := by
+  unfold List.idxOf? at h
+  have := List.findIdx?_eq_none_iff.mp h
+  intro hm
+  have := this a hm
+  simp at this
+
+theorem mem_enumerated (palette : List Rgba) (k : Nat) (c : Rgba) :
+    (k, c) ∈ enumeratedPalette palette ↔ palette[k]? = some c := by
+  unfold enumeratedPalette
+  rw [List.mem_map]
+  constructor
+  · rintro ⟨⟨c', k'⟩, hm, he⟩
+    simp only [Prod.mk.injEq] at he
+    obtain ⟨rfl, rfl⟩ := he
+    exact List.mem_zipIdx_iff_getElem?.mp hm
+  · intro h
+    exact ⟨(c, k), List.mem_zipIdx_iff_getElem?.mpr h, rfl⟩
+
+/-- the reordered list built by `sorted_palette` has the same members as the enumerated palette -/
+theorem mem_sortedFinal (en : List (Nat × Rgba)) (keepFirst : Option Nat) (x : Nat × Rgba) :
+    x ∈ sortedFinal en keepFirst ↔ x ∈ en := by
+  unfold sortedFinal
+  cases keepFirst with
+  | none => simp [List.mem_mergeSort]
+  | some f =>
+    cases hf : en[f]? with
+    | none =>
+      simp only [hf, List.mem_mergeSort]
+      have : en.length ≤ f := by
+        cases Nat.lt_or_ge f en.length with
+        | inl hh => rw [List.getElem?_eq_getElem hh] at hf; cases hf
+        | inr hh => exact hh
+      rw [List.eraseIdx_of_length_le this]
+    | some y =>
+      simp only [hf, List.mem_cons, List.mem_mergeSort]
+      constructor
+      · rintro (rfl | h)
+        · exact List.mem_of_getElem? hf
+        · exact List.mem_of_mem_eraseIdx h
+      · intro h
+        obtain ⟨i, hi⟩ := List.getElem?_of_mem h
+        by_cases hif : i = f
+        · subst hif; rw [hf] at hi; left; exact (Option.some.inj hi).symm
+        · right; exact List.mem_eraseIdx_iff_getElem?.mpr ⟨i, hif, hi⟩
+
+theorem length_sortedFinal (en : List (Nat × Rgba)) (keepFirst : Option Nat) :
+    (sortedFinal en keepFirst).length = en.length := by
+  unfold sortedFinal
+  cases keepFirst with
+  | none => simp [List.length_mergeSort]
+  | some f =>
+    cases hf : en[f]? with
+    | none =>
+      have : en.length ≤ f := by
+        cases Nat.lt_or_ge f en.length with
+        | inl hh => rw [List.getElem?_eq_getElem hh] at hf; cases hf
+        | inr hh => exact hh
+      simp only [hf, List.length_mergeSort, List.eraseIdx_of_length_le this]
+    | some y =>
+      have : f < en.length := lt_of_getElem?_some _ _ _ hf
+      simp only [hf, List.length_cons, List.length_mergeSort, List.length_eraseIdx, this, if_true]
+      omega
+
+theorem length_enumeratedPalette (palette : List Rgba) : (enumeratedPalette palette).length = palette.length := by
+  simp [enumeratedPalette]
+
+
 end OxiModel.Spec
